@@ -104,7 +104,7 @@ def encoder_correspondence(ck, binpath, n):
 
 
 def run_search(ck, binpath, ndocs, maxpos, size, nobs):
-    args = ["search", "--seed", ck.seed, "--docs", ndocs, "--maxpos", maxpos, "--size", size, "--obs", nobs, "--maxchars", 2500,
+    args = ["search", "--seed", ck.seed, "--docs", ndocs, "--maxpos", maxpos, "--size", size, "--obs", nobs, "--maxchars", 1800,
             "--std", os.path.join(REPO, "crates/emmylua_code_analysis/resources/std"), "--corpus", os.path.join(VERIF, "corpus", "C26")]
     rc, out, err = ck.run_bin(binpath, args, timeout=3000)
     if rc != 0:
@@ -132,7 +132,7 @@ def run_search(ck, binpath, ndocs, maxpos, size, nobs):
 def verified_checker(ck, obs):
     """run the Gallina validity predicates (C26/Corr.v check_case) on what the real server returned"""
     terms = [obs_to_coq(o) for o in obs]
-    failing = ck.coq_failing("checker", terms, ["EV.C26.Model", "EV.C26.Corr"], per_shard=4)
+    failing = ck.coq_failing("checker", terms, ["EV.C26.Model", "EV.C26.Corr"], per_shard=2)
     if failing:
         body = "Local Open Scope N_scope.\nDefinition cs__ : list case := [\n%s].\nEval vm_compute in (map failing_parts cs__).\n" % ";\n".join(terms[i] for i in failing)
         rc, out = ck.coq_eval("checker_parts", body, ["EV.C26.Model", "EV.C26.Corr"])
